@@ -214,6 +214,7 @@ pub struct Out {
     pub bursts: u32,
     pub switches: u64,
     pub parks: u64,
+    pub futex_timeouts: u64,
     pub wakes: u64,
     pub ctid_wakes: u64,
     pub eagain: u64,
@@ -337,7 +338,8 @@ enum Stop {
 enum St {
     Entry { nr: i64, a: [u64; 6] },
     User,
-    Futex { addr: u64, private: bool },
+    /// parked in FUTEX_WAIT; `timed`: the wait has a timeout (the deadline is the thread's sleep_until)
+    Futex { addr: u64, private: bool, timed: bool },
     Barrier,
     Ret { ret: i64, nr: i64 },
     Dead,
@@ -357,7 +359,7 @@ struct Th {
 enum Act {
     Real,
     Emu(i64, bool),
-    Park { addr: u64, private: bool },
+    Park { addr: u64, private: bool, timeout_ns: Option<u64> },
     Barrier,
     Sleep(u64),
 }
@@ -408,6 +410,7 @@ struct Tracer<'a> {
     bursts: u32,
     switches: u64,
     parks: u64,
+    timeouts: u64,
     wakes: u64,
     ctid_wakes: u64,
     eagain: u64,
@@ -495,6 +498,7 @@ pub fn run(cfg: &Cfg, dec: &mut Dec) -> Out {
         bursts: 0,
         switches: 0,
         parks: 0,
+        timeouts: 0,
         wakes: 0,
         ctid_wakes: 0,
         eagain: 0,
@@ -545,6 +549,7 @@ pub fn run(cfg: &Cfg, dec: &mut Dec) -> Out {
         bursts: t.bursts,
         switches: t.switches,
         parks: t.parks,
+        futex_timeouts: t.timeouts,
         wakes: t.wakes,
         ctid_wakes: t.ctid_wakes,
         eagain: t.eagain,
@@ -745,7 +750,8 @@ impl<'a> Tracer<'a> {
     // ---- scheduler -------------------------------------------------------------------------
 
     fn runnable(&self, t: usize) -> bool {
-        matches!(self.th[t].st, St::Entry { .. } | St::User | St::Ret { .. })
+        // a timed futex wait can always proceed: by timing out
+        matches!(self.th[t].st, St::Entry { .. } | St::User | St::Ret { .. } | St::Futex { timed: true, .. })
     }
 
     fn pick(&mut self) -> R<usize> {
@@ -873,8 +879,11 @@ impl<'a> Tracer<'a> {
                 let l = &mut self.info[t].last_nrs;
                 *l = [l[1], l[2], nr];
                 match self.on_syscall(t, nr, a)? {
-                    Act::Park { addr, private } => {
-                        self.th[t].st = St::Futex { addr, private };
+                    Act::Park { addr, private, timeout_ns } => {
+                        self.th[t].st = St::Futex { addr, private, timed: timeout_ns.is_some() };
+                        if let Some(ns) = timeout_ns {
+                            self.th[t].sleep_until = self.now.saturating_add(ns).max(1);
+                        }
                         self.waiters.push(t);
                         self.parks += 1;
                         return Ok(None);
@@ -904,6 +913,15 @@ impl<'a> Tracer<'a> {
                 self.log(t, E_RET, nr as u64, ret as u64, || format!("t{t} {} returns {ret}", nr_name(nr)));
             }
             St::User => {}
+            St::Futex { addr, timed: true, .. } => {
+                // picked while still parked: the wait times out (pick() moved the clock to its deadline)
+                self.waiters.retain(|x| *x != t);
+                let ret = -(libc::ETIMEDOUT as i64);
+                self.skip(t, ret)?;
+                let fid = self.futex_id(addr);
+                self.timeouts += 1;
+                self.log(t, E_RET, NR_FUTEX as u64, ret as u64, || format!("t{t} futex_wait(f{fid}) times out (simulated clock)"));
+            }
             o => return Err(End::Harness(format!("scheduled a thread in state {o:?}"))),
         }
         self.run_on(t)
@@ -1071,7 +1089,7 @@ impl<'a> Tracer<'a> {
                 .waiters
                 .iter()
                 .copied()
-                .filter(|&w| matches!(self.th[w].st, St::Futex { addr: a, private: p } if a == addr && p == private))
+                .filter(|&w| matches!(self.th[w].st, St::Futex { addr: a, private: p, .. } if a == addr && p == private))
                 .collect();
             if c.is_empty() {
                 break;
@@ -1079,6 +1097,7 @@ impl<'a> Tracer<'a> {
             let w = c[self.dec.choose(K::Wake, c.len() as u32) as usize];
             self.waiters.retain(|x| *x != w);
             self.th[w].st = St::Ret { ret: 0, nr: NR_FUTEX };
+            self.th[w].sleep_until = 0;
             self.wakes += 1;
             woken += 1;
             let fid = self.futex_id(addr);
@@ -1159,9 +1178,22 @@ impl<'a> Tracer<'a> {
                 let fid = self.futex_id(a[0]);
                 match cmd {
                     0 => {
-                        if a[3] != 0 {
-                            return Err(End::Harness("FUTEX_WAIT with a timeout is not modelled".into()));
-                        }
+                        // relative timeout of FUTEX_WAIT, on the simulated clock
+                        let timeout_ns = if a[3] != 0 {
+                            match self.read_mem(a[3], 16) {
+                                Some(b) => {
+                                    let s = i64::from_le_bytes(b[0..8].try_into().unwrap());
+                                    let n = i64::from_le_bytes(b[8..16].try_into().unwrap());
+                                    if s < 0 || !(0..1_000_000_000).contains(&n) {
+                                        return Ok(Act::Emu(-(libc::EINVAL as i64), false));
+                                    }
+                                    Some((s as u64).saturating_mul(1_000_000_000).saturating_add(n as u64))
+                                }
+                                None => return Ok(Act::Emu(-(libc::EFAULT as i64), false)),
+                            }
+                        } else {
+                            None
+                        };
                         let tid = self.th[t].tid;
                         let Some(w) = self.peek_u32(tid, a[0]) else {
                             self.log(t, E_RET, NR_FUTEX as u64, (-(libc::EFAULT as i64)) as u64, || format!("t{t} futex_wait(f{fid}) -> EFAULT"));
@@ -1175,7 +1207,7 @@ impl<'a> Tracer<'a> {
                             return Ok(Act::Emu(0, true));
                         }
                         self.log(t, E_PARK, fid, u64::from(private), || format!("t{t} futex_wait(f{fid}, {w}) parks{}", if private { " (private)" } else { "" }));
-                        Ok(Act::Park { addr: a[0], private })
+                        Ok(Act::Park { addr: a[0], private, timeout_ns })
                     }
                     1 => {
                         let n = self.wake(t, a[0], private, a[2] & 0x7fff_ffff);
